@@ -148,7 +148,11 @@ Definition vk (k : vkey) : bool := match k with KVal _ _ _ | KArg _ _ => true | 
 
 Section Inv.
   Variables (u : universe) (bh : behaviour) (g : rgraph) (b : builder) (fs : list fdecl) (earlier : list event).
+  (* FS: all functions the memo table may hold results of (a superset of fs) *)
+  Variable FS : list fdecl.
   Hypothesis Hfs : wf_funcs fs = true.
+  Hypothesis HFS : wf_funcs FS = true.
+  Hypothesis Hincl : forall f, In f fs -> In f FS.
   Hypothesis Hwv : wf_values b = true.
   Hypothesis Hin : forall k v, In (k, v) (input_vertices b) -> in_ok k v.
   Hypothesis Hg : ginv u b fs g.
@@ -280,7 +284,7 @@ Section Inv.
     i_vals : forall k v, lookup k vals = Some v -> good tr k v;
     i_world : forall fid r, lookup fid world = Some r ->
                 r_builderr r = false /\ exists args, In (EExec fid args (r_fields r) (r_err r)) (earlier ++ tr);
-    i_typed : forall fid r f, lookup fid world = Some r -> In f fs -> fn_id f = fid ->
+    i_typed : forall fid r f, lookup fid world = Some r -> In f FS -> fn_id f = fid ->
                 map v_ty (r_fields r) = map f_ty (fn_out f);
     i_ids : forall fid args outs err v, In (EExec fid args outs err) (earlier ++ tr) -> In v outs ->
                 v_id v < 1000 * (nexec + 1);
@@ -497,7 +501,7 @@ Section Inv.
         rewrite lookup_insert in Q. destruct (Base.eqb_spec fid (fn_id f)) as [E|N]; [|eapply (i_typed I); eauto].
         inversion Q; subst r0. unfold r. cbn [r_fields]. rewrite TY.
         assert (SS : same_sig f f0 = true).
-        { apply wf_funcs_id with (fs := fs); auto. congruence. }
+        { apply wf_funcs_id with (fs := FS); auto. congruence. }
         apply same_sig_spec in SS. destruct SS as [_ SO]. apply sig_map_ty. exact SO.
       + intros fid args outs0 err0 v A B.
         rewrite app_assoc in A. apply in_app_or in A. destruct A as [A|[A|[]]].
@@ -518,7 +522,7 @@ Section Inv.
     - inversion C; subst res s'. split; [exact I|]. split; [apply ext_refl|]. split; [reflexivity|].
       intros _. destruct (fn_once f); [|discriminate].
       destruct (i_world I _ W) as [B [args A]].
-      pose proof (i_typed I _ W Hf eq_refl) as T.
+      pose proof (i_typed I _ W (Hincl _ Hf) eq_refl) as T.
       destruct r as [rf re rb]. cbn [r_builderr r_fields r_err] in *. subst rb.
       apply event_outs_good with (args := args); auto.
     - match type of C with
